@@ -5,8 +5,11 @@ import (
 	"context"
 	"fmt"
 	"math/rand"
+	"os"
+	"strconv"
 	"strings"
 	"sync"
+	"time"
 
 	"github.com/ethereum/go-ethereum/common"
 	"github.com/ethereum/go-ethereum/core"
@@ -47,7 +50,16 @@ func runCase(r *vrt.Run, idx int) {
 	if r.Race() {
 		target = 40 + rng.Intn(80)
 	}
-	c.desc = fmt.Sprintf("params=%d history=%d scheme=%s maxlogs=%d target=%d", pi, c.history, cfg.StateScheme, maxLogs, target)
+	// Half of the cases are sequential: every chain operation and index restart is followed by
+	// WaitIdle before anything else happens (the indexer never runs while the chain changes),
+	// queries run at rest only. The other half lets imports, indexing and queries race.
+	// A third of the racing cases use only extensions (plus lagging targets, index restarts and
+	// history limits): the canonical number->hash index then only grows, which excludes the
+	// known ChainView/reorg race; their verdicts stay on the strict generic fingerprints.
+	c.sequential = idx%3 == 1
+	c.extendOnly = idx%3 == 2
+	c.valuesPerMap = []int{16, 64, 256}[pi]
+	c.desc = fmt.Sprintf("params=%d history=%d scheme=%s maxlogs=%d target=%d mode=%s", pi, c.history, cfg.StateScheme, maxLogs, target, c.mode())
 	r.Case("case %d (%s) open", idx, c.desc)
 
 	db := rawdb.NewMemoryDatabase()
@@ -68,15 +80,31 @@ func runCase(r *vrt.Run, idx int) {
 
 	// initial growth
 	c.mutate(rng, "extend", 20+rng.Intn(30), 0)
+	if c.sequential {
+		c.be.fm.Load().WaitIdle()
+	}
 	nQ := r.N(25, 40)
-	for step := 0; !c.failed.Load() && (c.head().num < uint64(target) || step < 6) && step < 400; step++ {
-		switch k := rng.Intn(10); {
+	maxSteps := 400
+	if v := os.Getenv("C40_STEPS"); v != "" {
+		maxSteps, _ = strconv.Atoi(v)
+	}
+	for step := 0; step < maxSteps && !c.failed.Load() && (c.head().num < uint64(target) || step < 6) && step < 400; step++ {
+		k := rng.Intn(10)
+		if c.sequential && k >= 4 && k < 8 {
+			k = 0
+		}
+		switch {
 		case k < 4: // quiescent session
 			c.mutateRandom(rng)
 			c.be.fm.Load().WaitIdle()
+			if !c.scanIndex() {
+				break
+			}
 			c.session(rng, nQ, false)
 		case k < 8: // session concurrent with imports and indexing
 			c.session(rng, nQ, true)
+			c.be.fm.Load().WaitIdle()
+			c.scanIndex()
 		case k < 9: // restart the index with another history limit
 			c.logop("restart filtermaps")
 			c.be.fm.Load().Stop()
@@ -86,12 +114,17 @@ func runCase(r *vrt.Run, idx int) {
 				return
 			}
 			r.Count("index_restarts", 1)
-			if rng.Intn(2) == 0 {
+			if c.sequential || rng.Intn(2) == 0 {
 				c.be.fm.Load().WaitIdle()
-				c.session(rng, nQ/2, false)
+				if c.scanIndex() {
+					c.session(rng, nQ/2, false)
+				}
 			}
 		default: // plain growth
 			c.mutate(rng, "extend", 10+rng.Intn(40), 0)
+			if c.sequential {
+				c.be.fm.Load().WaitIdle()
+			}
 		}
 	}
 	r.Count("matcher_row_fetches", int(c.be.rowFetches.Load()))
@@ -108,8 +141,22 @@ func runCase(r *vrt.Run, idx int) {
 	}
 }
 
+func (c *tcase) mode() string {
+	switch {
+	case c.sequential:
+		return "sequential"
+	case c.extendOnly:
+		return "extend-race"
+	}
+	return "reorg-race"
+}
+
 func (c *tcase) mutateRandom(rng *rand.Rand) {
-	switch k := rng.Intn(10); {
+	k := rng.Intn(10)
+	if c.extendOnly {
+		k = 0
+	}
+	switch {
 	case k < 4:
 		c.mutate(rng, "extend", 1+rng.Intn(25), lagOf(rng))
 	case k < 8:
@@ -397,6 +444,10 @@ func errKindOf(err error) string {
 	case strings.Contains(err.Error(), "block range extends beyond current head block"):
 		return "future"
 	}
+	if msg := err.Error(); strings.HasSuffix(msg, ": not found") && (strings.Contains(msg, "failed to retrieve log value pointer") || strings.Contains(msg, "failed to retrieve base row group") || strings.Contains(msg, "failed to retrieve filter map")) {
+		// an index entry vanished under the running query (reverted / unindexed concurrently)
+		return "other:index-entry-not-found"
+	}
 	return "other:" + err.Error()
 }
 
@@ -505,6 +556,7 @@ func (c *tcase) session(rng *rand.Rand, nQ int, concurrent bool) {
 		nMut := 2 + rng.Intn(4)
 		c.logop("concurrent session: queries racing with %d chain operations from head #%d", nMut, head)
 		stop := make(chan struct{})
+		inQuery := make(chan struct{}, 1)
 		for w := 0; w < workers; w++ {
 			wg.Add(1)
 			qrng := rand.New(rand.NewSource(rng.Int63()))
@@ -522,6 +574,10 @@ func (c *tcase) session(rng *rand.Rand, nQ int, concurrent bool) {
 					if qrng.Intn(3) == 0 && h > 10 {
 						h -= uint64(qrng.Intn(10)) // ranges that stay valid across shallow reorgs
 					}
+					select {
+					case inQuery <- struct{}{}:
+					default:
+					}
 					q := c.query(c.randSpec(qrng, h), true)
 					mu.Lock()
 					recs = append(recs, q)
@@ -530,6 +586,13 @@ func (c *tcase) session(rng *rand.Rand, nQ int, concurrent bool) {
 			}()
 		}
 		for i := 0; i < nMut && !c.failed.Load(); i++ {
+			// start the operation while queries are in flight
+			for w := 0; w < 2; w++ {
+				select {
+				case <-inQuery:
+				case <-time.After(20 * time.Millisecond):
+				}
+			}
 			c.mutateRandom(rng)
 		}
 		close(stop)
@@ -582,6 +645,10 @@ func (c *tcase) judge(q *qrec) {
 	kind := "quiescent"
 	if q.concurrent {
 		kind = "concurrent"
+		if !c.extendOnly {
+			// imports that rewrite the canonical index race with the indexer and the query
+			kind = "reorg-race"
+		}
 		r.Count("queries_concurrent", 1)
 		if overlap {
 			r.Count("queries_concurrent_overlapping_reorg", 1)
@@ -610,7 +677,11 @@ func (c *tcase) judge(q *qrec) {
 		fp := "mismatch:" + kind
 		switch {
 		case strings.HasPrefix(got, "other:"):
-			fp = "unexpected-error:" + kind + ":" + trunc(strings.TrimPrefix(got, "other:"), 40)
+			ek := kind
+			if ek == "reorg-race" {
+				ek = "concurrent"
+			}
+			fp = "unexpected-error:" + ek + ":" + trunc(stripDigits(strings.TrimPrefix(got, "other:")), 48)
 		case got != "" || strings.HasPrefix(firstDiff, "outcome"):
 			fp = "wrong-outcome:" + kind
 		case len(q.logs) < len(want):
@@ -619,6 +690,39 @@ func (c *tcase) judge(q *qrec) {
 			fp = "extra-logs:" + kind
 		default:
 			fp = "wrong-logs:" + kind
+		}
+		if kind == "reorg-race" {
+			switch {
+			case strings.HasPrefix(got, "other:"):
+				// errors keep their own class (see errKindOf)
+			case got == "" && c.mixedViews(q, tips):
+				// every returned block is exact for a block that was canonical during the query
+				fp = "mixed-chain-views:concurrent"
+				r.Count("reorg_race_results_mixing_chain_views", 1)
+			default:
+				// answered from a log index that transiently held another branch (same root
+				// cause as index-inconsistent-at-rest; the damage was repaired by a later re-render)
+				fp = "query-mismatch:reorg-race"
+				r.Count("reorg_race_results_other_mismatch", 1)
+			}
+		}
+		if os.Getenv("C40_DEBUG") != "" && !q.concurrent {
+			c.debugMismatch(q, want)
+		}
+		if c.failed.Load() {
+			return // a root cause was already reported for this case (index scan)
+		}
+		if q.concurrent && !c.sequential {
+			// decide after the session whether the index itself is damaged
+			transient := fp == "mixed-chain-views:concurrent" || fp == "query-mismatch:reorg-race" || fp == "unexpected-error:concurrent:index-entry-not-found"
+			c.pendingMismatch = append(c.pendingMismatch, func() {
+				if !transient {
+					c.failed.Store(true)
+				}
+				r.Violation(fp, fmt.Sprintf("case %d (%s): filter %s coverage=%s views=%d: %s", c.idx, c.desc, q.sp, q.coverage, len(tips), firstDiff),
+					c.witness(map[string]any{"filter": q.sp.String(), "addresses": q.sp.addrs, "topics": q.sp.topics, "returned": len(q.logs), "expected_first_view": len(want), "err": fmt.Sprint(q.err), "ops_completed_at_start": q.s, "ops_started_at_end": q.e}))
+			})
+			return
 		}
 		c.failed.Store(true)
 		r.Violation(fp, fmt.Sprintf("case %d (%s): filter %s coverage=%s views=%d: %s", c.idx, c.desc, q.sp, q.coverage, len(tips), firstDiff),
@@ -636,3 +740,176 @@ func trunc(s string, n int) string {
 }
 
 var _ = filtermaps.DefaultParams
+
+func (c *tcase) debugMismatch(q *qrec, want []*types.Log) {
+	init, headIdx, first, after, mf, ma := c.be.fm.Load().VerifIndexedRange()
+	fmt.Printf("DEBUG mismatch %s: indexed init=%v headIndexed=%v blocks [%d,%d) maps [%d,%d) head #%d\n", q.sp, init, headIdx, first, after, mf, ma, c.be.bc.CurrentBlock().Number)
+	gotPer, wantPer := map[uint64]int{}, map[uint64]int{}
+	for _, l := range q.logs {
+		gotPer[l.BlockNumber]++
+	}
+	for _, l := range want {
+		wantPer[l.BlockNumber]++
+	}
+	for n := uint64(0); n <= c.be.bc.CurrentBlock().Number.Uint64(); n++ {
+		if gotPer[n] != wantPer[n] {
+			p, err := rawdb.ReadBlockLvPointer(c.be.db, n)
+			p2, _ := rawdb.ReadBlockLvPointer(c.be.db, n+1)
+			fmt.Printf("   block %d: got %d want %d  lvPointer=%d next=%d err=%v canonical=%x\n", n, gotPer[n], wantPer[n], p, p2, err, c.be.bc.GetCanonicalHash(n).Bytes()[:4])
+		}
+	}
+	if !c.dumped {
+		c.dumped = true
+		vals := func(b *mblock) int {
+			v := 1
+			for _, l := range b.logs {
+				v += 1 + len(l.Topics)
+			}
+			return v
+		}
+		cur := chainTo(c.chains[len(c.chains)-1])
+		var prev []*mblock
+		if len(c.chains) > 1 {
+			prev = chainTo(c.chains[len(c.chains)-2])
+		}
+		for n := uint64(1); n < uint64(len(cur)); n++ {
+			p, _ := rawdb.ReadBlockLvPointer(c.be.db, n)
+			p2, _ := rawdb.ReadBlockLvPointer(c.be.db, n+1)
+			pv := -1
+			if n < uint64(len(prev)) {
+				pv = vals(prev[n])
+			}
+			fmt.Printf("   PTR block %d: db delta=%d  current-branch values=%d  previous-branch values=%d\n", n, int64(p2)-int64(p), vals(cur[n]), pv)
+		}
+	}
+	for i := 0; i < 2; i++ {
+		f := c.sys.NewRangeFilter(q.sp.begin, q.sp.end, q.sp.addrs, q.sp.topics, 0)
+		logs, err := f.Logs(context.Background())
+		fmt.Printf("   re-query %d: %d logs err=%v (want %d)\n", i, len(logs), err, len(want))
+	}
+}
+
+// scanIndex is called with the indexer idle and the chain at rest: the log value pointers of the
+// indexed blocks must describe the canonical blocks (number of log values of block n <= pointer
+// distance <= values + padding at map boundaries). Returns false if the index is inconsistent.
+func (c *tcase) scanIndex() bool {
+	if c.failed.Load() {
+		return false
+	}
+	fm := c.be.fm.Load()
+	init, _, first, after, _, _ := fm.VerifIndexedRange()
+	ok := true
+	if init && after > first && first > 0 && fm.VerifTailPartialEpoch() == 0 {
+		// the first indexed block must start inside the indexed maps, otherwise its first log
+		// values lie in an unindexed map while the range claims the whole block
+		_, _, _, _, mapsFirst, _ := fm.VerifIndexedRange()
+		if p, err := rawdb.ReadBlockLvPointer(c.be.db, first); err == nil && p < uint64(mapsFirst)*uint64(c.valuesPerMap) {
+			c.failed.Store(true)
+			c.r.Violation("index-range-starts-inside-unindexed-block", fmt.Sprintf("case %d (%s): indexer idle: indexed blocks [%d,%d) but block %d starts at log value %d, before the first indexed map %d (log value %d): the beginning of the block is not indexed", c.idx, c.desc, first, after, first, p, mapsFirst, uint64(mapsFirst)*uint64(c.valuesPerMap)), c.witness(nil))
+			return false
+		}
+	}
+	if init && after > first {
+		canon := chainTo(c.head())
+		var bad []string
+		for n := first; n+1 < after && n+1 < uint64(len(canon)); n++ {
+			p, err1 := rawdb.ReadBlockLvPointer(c.be.db, n)
+			p2, err2 := rawdb.ReadBlockLvPointer(c.be.db, n+1)
+			if err1 != nil || err2 != nil {
+				bad = append(bad, fmt.Sprintf("#%d: pointer missing", n))
+				continue
+			}
+			vals := 1
+			for _, l := range canon[n].logs {
+				vals += 1 + len(l.Topics)
+			}
+			if n == 0 {
+				vals = 0
+			}
+			delta := int(p2) - int(p)
+			if delta < vals || delta > vals+4*(vals/c.valuesPerMap+2) {
+				bad = append(bad, fmt.Sprintf("#%d: %d log values indexed, canonical block has %d", n, delta, vals))
+			}
+			c.r.Count("index_blocks_scanned", 1)
+		}
+		if len(bad) > 0 {
+			ok = false
+			fp := "index-inconsistent-at-rest"
+			switch {
+			case c.extendOnly:
+				fp += ":after-extensions-racing-with-indexer"
+			case !c.sequential:
+				fp += ":after-operations-racing-with-indexer"
+			}
+			c.failed.Store(true)
+			if len(bad) > 12 {
+				bad = append(bad[:12], fmt.Sprintf("... %d more", len(bad)-12))
+			}
+			c.r.Violation(fp, fmt.Sprintf("case %d (%s): indexer idle, indexed blocks [%d,%d), head #%d: the index does not describe the canonical chain: %v", c.idx, c.desc, first, after, c.head().num, bad), c.witness(map[string]any{"inconsistent_blocks": bad}))
+		}
+	}
+	// mismatches observed during the racing session that are not explained by a damaged index
+	if ok {
+		for _, f := range c.pendingMismatch {
+			f()
+		}
+	} else {
+		c.r.Count("concurrent_mismatches_explained_by_damaged_index", len(c.pendingMismatch))
+	}
+	c.pendingMismatch = nil
+	return ok
+}
+
+// mixedViews reports whether a result that no single canonical view explains is at least a
+// concatenation of per-block results that are each exact for a block that was canonical at some
+// time during the query, in ascending block order (the signature of ChainView confusing two
+// branches while the number->hash index is being rewritten).
+func (c *tcase) mixedViews(q *qrec, tips []*mblock) bool {
+	if len(q.logs) == 0 {
+		return false
+	}
+	i := 0
+	last := int64(-1)
+	for i < len(q.logs) {
+		b := c.m.byHash[q.logs[i].BlockHash]
+		if b == nil || int64(b.num) <= last {
+			return false
+		}
+		canonical := false
+		for _, t := range tips {
+			x := t
+			for x != nil && x.num > b.num {
+				x = x.parent
+			}
+			if x == b {
+				canonical = true
+				break
+			}
+		}
+		if !canonical {
+			return false
+		}
+		var want []*types.Log
+		for _, l := range b.logs {
+			if match(l, q.sp.addrs, q.sp.topics) {
+				want = append(want, l)
+			}
+		}
+		if i+len(want) > len(q.logs) || len(want) == 0 || diffLogs(q.logs[i:i+len(want)], want) != "" {
+			return false
+		}
+		i += len(want)
+		last = int64(b.num)
+	}
+	return true
+}
+
+func stripDigits(s string) string {
+	out := make([]rune, 0, len(s))
+	for _, r := range s {
+		if r < '0' || r > '9' {
+			out = append(out, r)
+		}
+	}
+	return string(out)
+}
